@@ -498,28 +498,48 @@ func TestC18InferAndEquivalences(t *testing.T) {
 				}
 			}
 		case "enum-vs-int":
-			var vals []ref.Val
-			var raws []int8
-			for i := 0; i < rows; i++ {
-				v := rapid.Int8().Draw(rt, "v")
-				raws = append(raws, v)
-				vals = append(vals, []byte{byte(v)})
+			// Enum8 <-> Int8 and Enum16 <-> Int16, each in both directions.
+			wide := rapid.Bool().Draw(rt, "16-bit")
+			w, intName, enumName := 1, "Int8", "Enum8('a' = 1, 'b' = 2)"
+			if wide {
+				w, intName, enumName = 2, "Int16", "Enum16('a' = 1, 'b' = 2000)"
 			}
+			var vals []ref.Val
+			var raws []int16
+			for i := 0; i < rows; i++ {
+				v := rapid.Int16().Draw(rt, "v")
+				if !wide {
+					v = int16(int8(v))
+				}
+				raws = append(raws, v)
+				vals = append(vals, le(w, int64(v)))
+			}
+			var target proto.ColResult
+			var row func(i int) int16
+			blockType := enumName
 			if rapid.Bool().Draw(rt, "int-target") {
-				target := new(proto.ColInt8)
-				decode([]ref.Column{{Name: "e", T: ref.Fixed("Enum8('a' = 1, 'b' = 2)", 1), Rows: vals}}, proto.Results{{Name: "e", Data: target}})
-				for i, v := range raws {
-					if target.Row(i) != v {
-						rt.Fatalf("[%s] row %d", class, i)
-					}
+				if wide {
+					t := new(proto.ColInt16)
+					target, row = t, func(i int) int16 { return t.Row(i) }
+				} else {
+					t := new(proto.ColInt8)
+					target, row = t, func(i int) int16 { return int16(t.Row(i)) }
 				}
 			} else {
-				target := new(proto.ColEnum8)
-				decode([]ref.Column{{Name: "e", T: ref.Fixed("Int8", 1), Rows: vals}}, proto.Results{{Name: "e", Data: target}})
-				for i, v := range raws {
-					if int8(target.Row(i)) != v {
-						rt.Fatalf("[%s] row %d", class, i)
-					}
+				blockType = intName
+				if wide {
+					t := new(proto.ColEnum16)
+					target, row = t, func(i int) int16 { return int16(t.Row(i)) }
+				} else {
+					t := new(proto.ColEnum8)
+					target, row = t, func(i int) int16 { return int16(t.Row(i)) }
+				}
+			}
+			st.Label("enum-vs-int:" + strings.SplitN(blockType, "(", 2)[0] + "->" + string(target.Type()))
+			decode([]ref.Column{{Name: "e", T: ref.Fixed(blockType, w), Rows: vals}}, proto.Results{{Name: "e", Data: target}})
+			for i, v := range raws {
+				if row(i) != v {
+					rt.Fatalf("[%s] block %s into %s: row %d = %d want %d", class, blockType, target.Type(), i, row(i), v)
 				}
 			}
 		case "decimal-alias":
